@@ -211,6 +211,33 @@ func (ex *Ex) lookupIdent(env *Env, name string) (SV, bool) {
 			}
 			return SV{T: ex.termOf(fr, st, st.regs[best], best.Type()), Ty: SType{G: best.Type()}}, true
 		}
+		// a variable that lives in a cell (captured by a closure / address taken): its current
+		// content, not the value it was initialised with
+		{
+			var allocs []*ssa.Alloc
+			for _, b := range fn.Blocks {
+				for _, ins := range b.Instrs {
+					if a, ok := ins.(*ssa.Alloc); ok && a.Comment == name {
+						if _, ok := st.regs[a]; ok {
+							allocs = append(allocs, a)
+						}
+					}
+				}
+			}
+			if len(allocs) == 1 {
+				a := allocs[0]
+				v := ex.val(fr, st, a)
+				et := a.Type().(*types.Pointer).Elem()
+				if v.Ptr != nil && v.Ptr.Cell > 0 && len(v.Ptr.Path) == 0 {
+					if _, isStruct := et.Underlying().(*types.Struct); !isStruct {
+						lv := ex.loadFrom(fr, st, v, et, nil)
+						if lv.T != nil {
+							return SV{T: lv.T, Ty: SType{G: et}}, true
+						}
+					}
+				}
+			}
+		}
 		// debug refs
 		var found ssa.Value
 		var foundAddr bool
@@ -475,6 +502,11 @@ func (ex *Ex) tr(env *Env, e *Expr) (SV, error) {
 				pt = append(pt, v.T)
 			}
 			pats = append(pats, pt)
+		}
+		if len(vars) == 1 && vars[0].S.Eq(SInt) && len(pats) == 0 {
+			if t := expandBounded(e.Name, vars[0], body); t != nil {
+				return SV{T: t, Ty: tBool}, nil
+			}
 		}
 		if e.Name == "forall" {
 			return SV{T: Forall(vars, body, pats...), Ty: tBool}, nil
@@ -1085,4 +1117,64 @@ func (ex *Ex) lookupIdentQuiet(env *Env, name string) (SV, bool) {
 		return v, false
 	}
 	return v, ok
+}
+
+// expandBounded: a quantifier over an integer index with literal bounds 0 <= i < N (N small) is
+// expanded into a finite conjunction / disjunction (exact).
+func expandBounded(kind string, v *T, body *T) *T {
+	var conj []*T
+	var concl *T
+	if kind == "forall" {
+		if body.Kind != kApp || body.Op != "=>" {
+			return nil
+		}
+		g := body.Args[0]
+		if g.Kind == kApp && g.Op == "and" {
+			conj = g.Args
+		} else {
+			conj = []*T{g}
+		}
+		concl = body.Args[1]
+	} else {
+		if body.Kind != kApp || body.Op != "and" {
+			return nil
+		}
+		conj = body.Args
+	}
+	lo, hi := int64(-1), int64(-1)
+	var rest []*T
+	for _, c := range conj {
+		if c.Kind == kApp && len(c.Args) == 2 {
+			a, b := c.Args[0], c.Args[1]
+			if c.Op == "<=" && a.Kind == kInt && b.Kind == kVar && b.Op == v.Op && lo < 0 {
+				fmt.Sscanf(a.Op, "%d", &lo)
+				continue
+			}
+			if c.Op == ">=" && b.Kind == kInt && a.Kind == kVar && a.Op == v.Op && lo < 0 {
+				fmt.Sscanf(b.Op, "%d", &lo)
+				continue
+			}
+			if c.Op == "<" && b.Kind == kInt && a.Kind == kVar && a.Op == v.Op && hi < 0 {
+				fmt.Sscanf(b.Op, "%d", &hi)
+				continue
+			}
+		}
+		rest = append(rest, c)
+	}
+	if lo != 0 || hi < 0 || hi > 16 {
+		return nil
+	}
+	var parts []*T
+	for k := lo; k < hi; k++ {
+		m := map[string]*T{v.Op: IntLit(k)}
+		if kind == "forall" {
+			parts = append(parts, Implies(Subst(And(rest...), m), Subst(concl, m)))
+		} else {
+			parts = append(parts, Subst(And(rest...), m))
+		}
+	}
+	if kind == "forall" {
+		return And(parts...)
+	}
+	return Or(parts...)
 }
